@@ -55,4 +55,18 @@ Qed.
 (* the code as it is: "10.5" with unit "OHM" into 7 bytes *)
 Example number_to_str_current_overflows : snd (number_to_str_k 1 [49;48;46;53] (Some [79;72;77]) 7) = true.
 Proof. vm_compute. reflexivity. Qed.
-Print Assumptions number_to_str_fixed_bounded.
+(* the model function itself (BufModel.number_to_str, which the correspondence check runs against SCPI_NumberToStr) *)
+Lemma number_to_str_flag bits unit len :
+  snd (number_to_str bits unit len) = snd (number_to_str_k 2 (GFmt.fmt_double 15 bits) unit len).
+Proof.
+  unfold number_to_str, number_to_str_k, double_to_str. destruct (len =? 0); [reflexivity|].
+  destruct (fp_to_str (GFmt.fmt_double 15 bits) len) as [[[s n] r] u].
+  destruct (puts (repeat None (Z.to_nat len)) 0 (s ++ [0])) as [b1 o1].
+  destruct (r + 1 <? len); [|reflexivity]. destruct unit as [un|]; [|reflexivity].
+  destruct (strncat_ b1 (Z.to_nat r) [32] (len - r)) as [b2 o2].
+  destruct (r + 2 <? len); [|reflexivity].
+  destruct (strncat_ b2 (Z.to_nat r + 1) un (len - r - 2)) as [b3 o3]. reflexivity.
+Qed.
+Theorem number_to_str_bounded bits unit len : 0 <= len -> snd (number_to_str bits unit len) = false.
+Proof. intro H. rewrite number_to_str_flag. now apply number_to_str_fixed_bounded. Qed.
+Print Assumptions number_to_str_bounded.
